@@ -205,6 +205,14 @@ def job_scripts(name, tier, vecs):
             # was an empty cycle reused somewhere?
             for (op, tr, cur), (op2, tr2, cur2) in zip(hist, hist[1:]):
                 if any(not c for c in read_tr(ex, tr)[0]) and op2[0] in ('add_own', 'add_end', 'move'): J.covers.add('empty cycle reused')
+            def wit(m, hist=hist):
+                c = mk(m, 'witness')
+                sym = []
+                for op, tr, cur in hist:
+                    cyc, cnt, look, empt, viol, total = read_tr(ex, tr)
+                    sym.append(dict(cycles=[dict(vehicles=['veh_%d' % v for v in cy], counter=mval(m, x)) for cy, x in zip(cyc, cnt)], violation=mval(m, viol), counter=mval(m, total)))
+                return dict(scenario=c['scenario'], symbolic=sym, first_op=c['expect']['first_op'])
+            J.witness(pc, wit, limit=1)
             J.sample('script %s: %s' % (list(vecs[0]), [op for op, _, _ in hist]))
     return J.result()
 
@@ -247,6 +255,10 @@ def confirm(c):
         out.append('%s: %s' % (prof, why))
         if not bad: return False, '; '.join(out)
     return True, '; '.join(out)
+
+def validate(w):
+    obs = replay.run(w['scenario'], 'dev')[w['first_op']:]
+    return (obs == w['symbolic']), 'native %s / symbolic %s' % (str(obs)[:300], str(w['symbolic'])[:300])
 
 def native_violation(exp, obs):
     """evaluate the invariants on the natively observed transitions with the concrete reference values"""
